@@ -842,11 +842,12 @@ func genLS(r *vh.Rand, kind string) string {
 	last := uint64(0)
 	term := uint64(1)
 	lastSnap := uint64(0)
-	for i := 0; i < r.Intn(7); i++ {
-		switch r.Intn(6) {
+	n := 2 + r.Intn(8)
+	for i := 0; i < n; i++ {
+		switch r.Intn(8) {
 		case 0:
 			ops = append(ops, fmt.Sprintf("state %d %d %d", term, r.Intn(4), last))
-		case 1, 2:
+		case 1, 2, 3:
 			first := last + 1
 			if last > 2 && r.Chance(1, 4) {
 				first = last - uint64(r.Intn(2))
@@ -855,13 +856,13 @@ func genLS(r *vh.Rand, kind string) string {
 			cnt := uint64(1 + r.Intn(6))
 			ops = append(ops, fmt.Sprintf("ents %d %d %d", first, cnt, term))
 			last = first + cnt - 1
-		case 3:
+		case 4, 5:
 			if last > lastSnap {
 				idx := lastSnap + 1 + uint64(r.Intn(int(last-lastSnap)))
 				ops = append(ops, fmt.Sprintf("snap %d %d", idx, term))
 				lastSnap = idx
 			}
-		case 4:
+		case 6:
 			ops = append(ops, fmt.Sprintf("boot %d %d", r.Intn(2), 1+r.Intn(3)))
 		default:
 			ops = append(ops, "reopen")
@@ -870,16 +871,21 @@ func genLS(r *vh.Rand, kind string) string {
 			}
 		}
 	}
-	// the imported image: below, inside or above the stored log / snapshots
+	// the imported image: below, at or above the newest stored snapshot record,
+	// below / inside / above the stored log
 	idx := uint64(1 + r.Intn(int(last)+4))
-	if lastSnap > 0 && r.Chance(1, 3) {
-		idx = lastSnap - uint64(r.Intn(2))
-		if idx == 0 {
-			idx = 1
+	if lastSnap > 0 && r.Chance(1, 2) {
+		switch r.Intn(3) {
+		case 0:
+			idx = lastSnap
+		case 1:
+			idx = 1 + uint64(r.Intn(int(lastSnap)))
+		default:
+			idx = lastSnap + 1 + uint64(r.Intn(3))
 		}
 	}
 	typ := 1 + r.Intn(3)
-	if r.Chance(1, 12) {
+	if r.Chance(1, 15) {
 		typ = 0
 	}
 	return fmt.Sprintf("ls db=%s imp=%d,%d,%d | %s", kind, idx, 1+r.Intn(int(term)+1), typ, strings.Join(ops, " ; "))
@@ -889,9 +895,9 @@ func gen(a vh.Args) {
 	r := vh.NewRand(a.Seed)
 	w := vh.Create(a.Cases)
 	defer w.Close()
-	nCM, nImg, nLoc, nLS, nE2E := 400, 120, 60, 24, 2
+	nCM, nImg, nLoc, nLS, nE2E := 400, 120, 60, 80, 2
 	if a.Tier == "thorough" {
-		nCM, nImg, nLoc, nLS, nE2E = 6000, 1500, 400, 300, 12
+		nCM, nImg, nLoc, nLS, nE2E = 6000, 1500, 400, 800, 36
 	}
 	nExt := nLoc
 	if a.N > 0 {
